@@ -69,6 +69,11 @@ Spec == Init /\ [][Next]_vars
 (* rex's size is floored at 1 by get_output_buffer when the rule gives nothing positive *)
 EffRexN(s) == IF RexN(s) = NONE \/ RexN(s) < 1 THEN 1 ELSE RexN(s)
 FormulaSafe == Correct(sched, EffRexN(sched))
+(* several consumers of one producer (each with its own window and own reads): rex gives the producer ONE ring of the largest size any of its
+   connections asks for (Timings.get_output_buffer: max over the connections).  That is safe for every consumer because correctness is monotone in
+   the ring size: a larger ring never overwrites earlier.  NodeN = the size for a set of consumer schedules over the same writes. *)
+Monotone == \A N \in 1..(MaxN - 1) : Correct(sched, N) => Correct(sched, N + 1)
+NodeN(ss) == Max({EffRexN(s) : s \in ss})
 FormulaTight == EffRexN(sched) = SafeN(sched)      \* not an invariant to be checked: statistics only
 
 Emit == PrintT("BUF|" \o ToJson([pw |-> sched.pw, last |-> sched.last, W |-> sched.W, safe |-> SafeN(sched), rex |-> RexN(sched), eff |-> EffRexN(sched)]))
